@@ -46,7 +46,8 @@ from harness.lib import coqbuild
 
 LEVEL = "proof"
 THEOREMS = ["C14_fail_closed", "C14_never_partial", "C14_not_empty", "C14_checksum", "C14_untouched",
-            "C14_row_count_metadata_only", "C14_history_independent", "C14_checksum_survives_history", "C14_no_check_use_gap", "C14_healthy_ok",
+            "C14_row_count_metadata_only", "C14_history_independent", "C14_checksum_survives_history", "C14_no_check_use_gap", "C14_list_fields_without_read_meaning",
+            "C14_healthy_ok",
             "C14_fail_closed_full_refuted"]
 REQ = ["DS.Gen.GenRead", "DS.Model.Read"]
 KNOWN_KEY = "current-metadata-file-deleted-serves-previous-version"
@@ -224,7 +225,8 @@ def read_list_any(b: bytes) -> List[str]:
     try:
         return [r["manifest_path"] for r in avro_records(b)]
     except Exception:
-        return [r["manifest_path"] for r in json.loads(b.decode("utf-8"))["manifests"]]
+        # the legacy JSON layout; an object without the key lists nothing (decided in DESIGN.md C14: `{}` parses)
+        return [r["manifest_path"] for r in dict(json.loads(b.decode("utf-8"))).get("manifests", [])]
 
 
 def read_manifest_any(b: bytes) -> List[Tuple[str, Optional[str]]]:
@@ -237,7 +239,7 @@ def read_manifest_full(b: bytes) -> List[Tuple[str, int, Optional[str]]]:
     try:
         return [(r["data_file"]["file_path"], r["data_file"]["record_count"], r["data_file"].get("checksum")) for r in avro_records(b)]
     except Exception:
-        return [(r["file_path"], r["record_count"], r.get("checksum")) for r in json.loads(b.decode("utf-8"))["files"]]
+        return [(r["file_path"], r["record_count"], r.get("checksum")) for r in dict(json.loads(b.decode("utf-8"))).get("files", [])]
 
 
 class Inventory:
@@ -276,6 +278,7 @@ class Inventory:
         self.file_rows: Dict[str, List[int]] = {}
         self.checksummed: Dict[str, bool] = {}      # does the entry the reader keeps for this path record a checksum?
         self.rows: List[int] = []
+        self.count_total = 0                        # what row_count() denotes: the recorded counts of the kept entries
         if self.list is not None:
             for m in read_list_any(self.files[self.list]):
                 m = m.lstrip("/")
@@ -283,11 +286,12 @@ class Inventory:
                     continue
                 if m not in self.manifests:
                     self.manifests.append(m)
-                for p, csum in read_manifest_any(self.files[m]):
+                for p, cnt, csum in read_manifest_full(self.files[m]):
                     p = p.lstrip("/")
                     if p in self.data:
                         continue
                     self.data.append(p)
+                    self.count_total += cnt
                     self.checksummed[p] = bool(csum)
                     self.file_rows[p] = parquet_rows(self.files[p])
                     self.rows += self.file_rows[p]
@@ -792,10 +796,126 @@ def json_boundaries(b: bytes) -> List[int]:
     return sorted(set(o for o in out if 0 < o < len(b)))
 
 
+def _set_field(rec: Dict[str, Any], field: str, value: Any) -> None:
+    tgt = rec
+    parts = field.split(".")
+    for part in parts[:-1]:
+        tgt = tgt[part]
+    tgt[parts[-1]] = value
+
+
+def _get_field(rec: Dict[str, Any], field: str) -> Any:
+    for part in field.split("."):
+        rec = rec[part]
+    return rec
+
+
+LIST_EDITS = [("content", 1), ("manifest_length", 0), ("manifest_length", 1 << 40), ("partition_spec_id", 7), ("added_snapshot_id", 1),
+              ("sequence_number", 0), ("sequence_number", None), ("min_sequence_number", 999), ("added_data_files_count", 0),
+              ("existing_data_files_count", 9), ("deleted_data_files_count", 5), ("manifest_path", "@other")]
+MANIFEST_EDITS = [("status", 0), ("status", 2), ("snapshot_id", 1), ("sequence_number", None), ("file_sequence_number", 0),
+                  ("data_file.record_count", 0), ("data_file.record_count", "@plus1"), ("data_file.file_size_in_bytes", 0),
+                  ("data_file.file_format", "orc"), ("data_file.checksum", None), ("data_file.checksum", "@other"),
+                  ("data_file.file_path", "@other"), ("data_file.lower_bounds", None), ("data_file.value_counts", None)]
+
+
+def field_edit(inv: Inventory, path: str, name: str) -> Optional[Dict[str, Any]]:
+    """edit:<record index | all>:<field>=<json value>: decode the Avro container, change one field of one record
+    (or of every record), re-encode.  The file parses exactly as before; only its meaning may differ.
+    "@other" = the value the next record holds in that field; "@plus1" = the value plus one."""
+    _e, rec_s, rest = name.split(":", 2)
+    field, _eq, val_s = rest.partition("=")
+    value = json.loads(val_s)
+
+    def edit(recs):
+        if not recs:
+            raise ValueError("no records")
+        idxs = range(len(recs)) if rec_s == "all" else [int(rec_s)]
+        for i in idxs:
+            if i >= len(recs):
+                raise ValueError("no such record")
+            v = value
+            if v == "@other":
+                if len(recs) < 2:
+                    raise ValueError("no other record")
+                v = _get_field(recs[(i + 1) % len(recs)], field)
+            elif v == "@plus1":
+                v = _get_field(recs[i], field) + 1
+            _set_field(recs[i], field, v)
+        return recs
+    try:
+        new = _avro_rewrite(inv.files[path], edit)
+    except Exception:
+        return None
+    return {"name": name, "class": "edit", "writes": {path: new}}
+
+
+def field_edits_for(inv: Inventory, path: str, tier: str) -> List[Dict[str, Any]]:
+    """Field-level edits of every kind on the first and the last record (every record in thorough), the content /
+    status edit on every record at once, and every single-byte flip of the file that still decodes to records which
+    differ from the original in some field (one flip per record and field)."""
+    role = inv.roles[path]
+    table = LIST_EDITS if role == "list" else MANIFEST_EDITS
+    try:
+        recs = avro_records(inv.files[path])
+    except Exception:
+        return []
+    out: List[Dict[str, Any]] = []
+    which = range(len(recs)) if tier == "thorough" else sorted({0, len(recs) - 1})
+    for i in which:
+        for field, value in table:
+            d = field_edit(inv, path, f"edit:{i}:{field}={json.dumps(value)}")
+            if d is not None and d["writes"][path] != inv.files[path]:
+                out.append(d)
+    for field, value in table[:2]:
+        d = field_edit(inv, path, f"edit:all:{field}={json.dumps(value)}")
+        if d is not None:
+            out.append(d)
+    # single-byte flips that still parse with a different meaning
+    orig = inv.files[path]
+    base = json.dumps(recs, sort_keys=True, default=str)
+    seen = set()
+    import fastavro
+    for o in range(len(orig)):
+        for mask in (0x02, 0x01, 0xFF):
+            b2 = orig[:o] + bytes([orig[o] ^ mask]) + orig[o + 1:]
+            try:
+                r2 = list(fastavro.reader(io.BytesIO(b2)))
+            except Exception:
+                continue
+            if len(r2) != len(recs):
+                key: Any = ("count", len(r2))
+            else:
+                key = None
+                for i, (a, c) in enumerate(zip(recs, r2)):
+                    if a != c:
+                        fa = json.loads(json.dumps(a, sort_keys=True, default=str))
+                        fc = json.loads(json.dumps(c, sort_keys=True, default=str))
+                        diff = [k for k in fa if fa.get(k) != fc.get(k)]
+                        key = (i, diff[0] if diff else "?")
+                        if diff and diff[0] == "data_file" and isinstance(fc.get("data_file"), dict):
+                            sub = [k for k in fa["data_file"] if fa["data_file"].get(k) != fc["data_file"].get(k)]
+                            key = (i, "data_file." + (sub[0] if sub else "?"))
+                        break
+            if key is None or key in seen:
+                continue
+            seen.add(key)
+            out.append({"name": f"xor@{o}:{mask}", "class": "edit", "writes": {path: b2}, "field": str(key)})
+    del base
+    return out
+
+
 def damage_by_name(inv: Inventory, path: str, name: str) -> Optional[Dict[str, Any]]:
     """Rebuild one damage from its name alone (replay, shrinking)."""
     orig = inv.files[path]
     n = len(orig)
+    if name.startswith("edit:"):
+        return field_edit(inv, path, name)
+    if name.startswith("xor@"):
+        o, mask = name[4:].split(":")
+        if int(o) < n:
+            return {"name": name, "class": "edit", "writes": {path: orig[:int(o)] + bytes([orig[int(o)] ^ int(mask)]) + orig[int(o) + 1:]}}
+        return None
     head, _, arg = name.partition("@")
     if name == "delete":
         return {"name": name, "class": "absent", "writes": {path: None}}
@@ -838,6 +958,8 @@ def damages_for(inv: Inventory, path: str, tier: str, rng: random.Random) -> Lis
     for o in sorted(x for x in offs if 0 <= x < n):
         out.append({"name": f"truncate@{o}", "class": "truncate", "writes": {path: orig[:o]}, "structural": o in bounds})
     out.append(damage_by_name(inv, path, f"random:{rng.randrange(10 ** 6)}"))
+    if role in ("list", "manifest"):
+        out.extend(field_edits_for(inv, path, tier))
     if role in ("list", "manifest"):
         # bytes on which fastavro raises something OUTSIDE the fallback tuple (MemoryError from a huge header read,
         # KeyError 'avro.schema'): the reader must let it propagate, not fall back, and certainly not return
@@ -1086,7 +1208,7 @@ def recovered_by_scan(inv: Inventory) -> Optional[str]:
 
 
 def compare(mc: ModelCtx, api: str, impl: Dict[str, Any], trace: List[Tuple[str, str, int]], model: Dict[str, Any],
-            late: bool = False) -> Optional[str]:
+            late: bool = False, loose_occ: bool = False) -> Optional[str]:
     if impl["ok"] != model["ok"]:
         return f"outcome: impl {'returns' if impl['ok'] else 'raises ' + impl['exc']} / model {'Ok' if model['ok'] else 'Err ' + model['kind']}"
     if impl["ok"]:
@@ -1102,6 +1224,11 @@ def compare(mc: ModelCtx, api: str, impl: Dict[str, Any], trace: List[Tuple[str,
             return f"yielded prefix: impl {impl['yielded']} / model {model['yielded']}"
     it = [(mc.key(p), op, occ) for p, op, occ in trace]
     mt = model["trace"]
+    if loose_occ:
+        # the damage makes one file be listed twice: the model names a transient fault by call site, so its second
+        # visit repeats the occurrence numbers of the first; compare (file, operation) sequences
+        it = [(k, op, 0) for k, op, _o in it]
+        mt = [(k, op, 0) for k, op, _o in mt]
     if api == "ScanPar":
         # worker threads: order among data files is free, and after a failure later files may or may not have started
         data_keys = {mc.key(d) for d in mc.inv.data}
@@ -1137,6 +1264,15 @@ REDUCED = ("delete", "braces", "swap-sibling", "truncate@1")   # + transient, st
 
 
 DATA_APIS = ["Scan", "ScanPar", "Batches", "IterRecords"]
+
+
+def denotation(path: str) -> Optional["Inventory"]:
+    """What the table on disk denotes to a reader that knows nothing of datashard; None when it denotes nothing."""
+    try:
+        d = Inventory(path)
+    except Exception:  # noqa: BLE001
+        return None
+    return None if d.broken else d
 
 
 def lost_checksums(inv: "Inventory") -> List[Dict[str, Any]]:
@@ -1244,6 +1380,7 @@ def run_table(ctx, path: str, shape: List[List[int]], tag: str, file_limit: Opti
                         if r0["ok"] == inv.broken:
                             ctx.violation(f"healthy-table-misread:prior:{api}", f"undamaged table, prior read gave {r0}", {"table": tag})
                     handles[(api, verify)] = t
+        dmg_cache: Dict[str, Any] = {}
         apply_damage(inv, dmg)
         try:
             recovered = recovered_by_scan(inv)
@@ -1317,6 +1454,21 @@ def run_table(ctx, path: str, shape: List[List[int]], tag: str, file_limit: Opti
                     else:
                         lk = f"{role}:{dmg['class']}:" + ("raises" if not impl["ok"] else "full" if answer_ok else "other-rows")
                         labelled[lk] = labelled.get(lk, 0) + 1
+                        if impl["ok"] and not answer_ok:
+                            # damage every parser accepts: the call may ignore it (original answer), refuse it (raise), or
+                            # honour what the damaged files DENOTE to an independent reader (manifest paths, data file paths,
+                            # recorded counts, the rows in the files) -- never something else, e.g. the table minus the
+                            # manifests whose entries changed in a field that carries no read meaning
+                            if "den" not in dmg_cache:
+                                dmg_cache["den"] = denotation(path)
+                            den = dmg_cache["den"]
+                            got = impl["count"] if api == "RowCount" else impl["rows"]
+                            if den is None or got != (den.count_total if api == "RowCount" else den.rows):
+                                ctx.violation(f"{pre}parse-clean-damage-changes-answer:{role}:{dmg['class']}:{api}",
+                                              f"{role} file {dmg['name']}{' [' + dmg['field'] + ']' if dmg.get('field') else ''} (parses exactly as before): "
+                                              f"{api}(verify={verify}) returned {got}; the undamaged answer is {len(healthy_rows) if api == 'RowCount' else healthy_rows}, "
+                                              f"the damaged files denote {'nothing readable' if den is None else (den.count_total if api == 'RowCount' else den.rows)}",
+                                              dict(case, got=impl, expect="denotation"))
                     expr, late = model_expr(mc, dmg, recovered, api, verify)
                     if late and not verify:
                         ctx.stats["late_failures_unverified"] = ctx.stats.get("late_failures_unverified", 0) + 1
@@ -1344,7 +1496,8 @@ def run_table(ctx, path: str, shape: List[List[int]], tag: str, file_limit: Opti
                                                  "model_eval": round(time.time() - t_impl, 1)}
     bad = []
     for c, g in zip(cases, got):
-        why = compare(mc, c["case"]["api"], c["impl"], c["trace"], parse_model(g), c["late"])
+        why = compare(mc, c["case"]["api"], c["impl"], c["trace"], parse_model(g), c["late"],
+                      loose_occ=("manifest_path=" in c["case"]["damage"]))
         if why:
             d = dict(c["case"], why=why)
             if c["case"]["role"] == "meta" and c["case"]["damage"] == "delete":
@@ -1704,6 +1857,11 @@ def execute_case(case: Dict[str, Any], path: str) -> Optional[Tuple[Dict[str, An
                 impl = run_api(t, case["api"], case["verify"], {"id": (">=", 0)} if case.get("filter") else None)
             finally:
                 ins.restore()
+        if case.get("expect") == "denotation" and impl["ok"]:
+            got = impl["count"] if case["api"] == "RowCount" else impl["rows"]
+            den = denotation(path)
+            healthy = len(inv.rows) if case["api"] == "RowCount" else inv.rows
+            impl = dict(impl, denotation_violated=(got != healthy and (den is None or got != (den.count_total if case["api"] == "RowCount" else den.rows))))
     finally:
         undo_damage(inv, dmg)
     return impl, inv, ("one handle: two verified reads, then " if held else "") + f"{case['role']} file {p} {dmg['name']}"
@@ -1716,6 +1874,8 @@ def case_fails(case: Dict[str, Any], impl: Dict[str, Any], inv: "Inventory") -> 
         return bool(impl.get("hung"))
     if impl.get("not_reached"):
         return False
+    if case.get("expect") == "denotation":
+        return bool(impl.get("denotation_violated"))
     if case.get("expect") == "mid-call":
         files = [q for q, r in inv.reachable() if r == case["role"]]
         p = files[min(case.get("index", 0), len(files) - 1)]
